@@ -76,7 +76,18 @@ func extractSwitch(pk *packages.Package, sw *ast.SwitchStmt) ([]caseRow, bool) {
 				row.Thr = uint64(k)
 			}
 		}
-		for _, s := range cc.Body {
+		fillRow(pk, &row, cc.Body)
+		rows = append(rows, row)
+	}
+	return rows, true
+}
+
+// fillRow collects the constants, marker bytes and Put/Uint calls of a table row's body.
+func fillRow(pk *packages.Package, rowp *caseRow, body []ast.Stmt) {
+	row := *rowp
+	defer func() { *rowp = row }()
+	{
+		for _, s := range body {
 			ast.Inspect(s, func(n ast.Node) bool {
 				switch x := n.(type) {
 				case *ast.AssignStmt:
@@ -106,8 +117,66 @@ func extractSwitch(pk *packages.Package, sw *ast.SwitchStmt) ([]caseRow, bool) {
 				return true
 			})
 		}
-		rows = append(rows, row)
 	}
+}
+
+// extractIfChain reads the same kind of table written as a chain of
+// `if x <op> K { …; return }` statements (or if / else-if / else) followed by the default
+// case as the remaining statements of the block.
+func extractIfChain(pk *packages.Package, stmts []ast.Stmt) ([]caseRow, bool) {
+	var rows []caseRow
+	var rest []ast.Stmt
+	cond := func(e ast.Expr) (caseRow, bool) {
+		be, ok := e.(*ast.BinaryExpr)
+		if !ok {
+			return caseRow{}, false
+		}
+		k, ok := constOf(pk, be.Y)
+		if !ok {
+			return caseRow{}, false
+		}
+		return caseRow{Op: be.Op.String(), Thr: uint64(k)}, true
+	}
+	started := false
+	for i, st := range stmts {
+		is, ok := st.(*ast.IfStmt)
+		if !ok {
+			if started {
+				rest = stmts[i:]
+				break
+			}
+			continue // declarations before the table
+		}
+		for is != nil {
+			row, ok := cond(is.Cond)
+			if !ok {
+				if started {
+					return nil, false
+				}
+				break
+			}
+			started = true
+			fillRow(pk, &row, is.Body.List)
+			rows = append(rows, row)
+			switch e := is.Else.(type) {
+			case *ast.IfStmt:
+				is = e
+			case *ast.BlockStmt:
+				d := caseRow{Op: "default"}
+				fillRow(pk, &d, e.List)
+				rows = append(rows, d)
+				return rows, len(rows) >= 2
+			default:
+				is = nil
+			}
+		}
+	}
+	if !started || len(rows) < 2 {
+		return nil, false
+	}
+	d := caseRow{Op: "default"}
+	fillRow(pk, &d, rest)
+	rows = append(rows, d)
 	return rows, true
 }
 
@@ -455,17 +524,21 @@ func C03(c *core.Ctx) {
 			continue
 		}
 		sw := firstSwitch(fd)
-		if sw == nil {
-			c.Und("R3.2", key, p.Pos(fd.Pos()), "no switch table found (restructured)")
-			continue
+		var rows []caseRow
+		ok := false
+		at := fd.Pos()
+		if sw != nil {
+			rows, ok = extractSwitch(encPk, sw)
+			at = sw.Pos()
+		} else {
+			rows, ok = extractIfChain(encPk, fd.Body.List)
 		}
-		rows, ok := extractSwitch(encPk, sw)
 		if !ok {
-			c.Und("R3.2", key, p.Pos(sw.Pos()), "switch is not a constant-threshold table")
+			c.Und("R3.2", key, p.Pos(at), "no constant-threshold table (switch or if-chain) found (restructured)")
 			continue
 		}
 		msg := checkSizeTable(rows, pr.form)
-		c.Decide(msg == "", "R3.2", key, p.Pos(sw.Pos()), fmt.Sprintf("%s table canonical: %v", pr.form, rows), pr.recv+"."+pr.name+" deviates from the NDN "+pr.form+" number code: "+msg)
+		c.Decide(msg == "", "R3.2", key, p.Pos(at), fmt.Sprintf("%s table canonical: %v", pr.form, rows), pr.recv+"."+pr.name+" deviates from the NDN "+pr.form+" number code: "+msg)
 	}
 	// readers: marker → width
 	for _, pr := range []prim{{"", "ParseTLNum", ""}, {"", "ReadTLNum", ""}} {
